@@ -6,6 +6,7 @@ package sx
 
 import (
 	"fmt"
+	"os"
 )
 
 type endKind int
@@ -25,13 +26,23 @@ type pathEnd struct {
 	msg  string
 }
 
+// pfx is one entry of a path prefix: a binary decision (v in {0,1}), an n-way
+// choice (v = index) or a concretisation (v = chosen value; ex marks the
+// continuation entry "next value not in excl", whose value v is already known
+// to be feasible).
+type pfx struct {
+	v    int64
+	ex   bool
+	excl []uint64
+}
+
 type decisionRec struct {
-	val int
+	p   pfx
 	lit *Term // nil for n-way nondet choices
 }
 
 type pendingPath struct {
-	prefix []int
+	prefix []pfx
 	model  Model
 }
 
@@ -156,7 +167,7 @@ func (in *Interp) Decide(c *Term) bool {
 	}
 	pos := len(in.trace)
 	if pos < len(in.prefix) {
-		b := in.prefix[pos] != 0
+		b := in.prefix[pos].v != 0
 		lit := c
 		if !b {
 			lit = in.tt.Not(c)
@@ -197,23 +208,20 @@ func (in *Interp) Decide(c *Term) bool {
 	}
 	switch {
 	case feasT && feasF:
-		pp := make([]int, pos+1)
-		for i, d := range in.trace {
-			pp[i] = d.val
-		}
-		pp[pos] = 0
+		pp := in.tracePrefix(pos + 1)
+		pp[pos] = pfx{v: 0}
 		in.pending = append(in.pending, pendingPath{pp, mF})
-		in.trace = append(in.trace, decisionRec{1, c})
+		in.trace = append(in.trace, decisionRec{pfx{v: 1}, c})
 		in.addPC(c)
 		in.model = mT
 		return true
 	case feasT:
-		in.trace = append(in.trace, decisionRec{1, c})
+		in.trace = append(in.trace, decisionRec{pfx{v: 1}, c})
 		in.addPC(c)
 		in.model = mT
 		return true
 	case feasF:
-		in.trace = append(in.trace, decisionRec{0, notc})
+		in.trace = append(in.trace, decisionRec{pfx{v: 0}, notc})
 		in.addPC(notc)
 		in.model = mF
 		return false
@@ -228,20 +236,93 @@ func (in *Interp) Choose(n int) int {
 	}
 	pos := len(in.trace)
 	if pos < len(in.prefix) {
-		v := in.prefix[pos]
-		in.trace = append(in.trace, decisionRec{v, nil})
-		return v
+		e := in.prefix[pos]
+		in.trace = append(in.trace, decisionRec{e, nil})
+		return int(e.v)
 	}
 	for i := n - 1; i >= 1; i-- {
-		pp := make([]int, pos+1)
-		for j, d := range in.trace {
-			pp[j] = d.val
-		}
-		pp[pos] = i
+		pp := in.tracePrefix(pos + 1)
+		pp[pos] = pfx{v: int64(i)}
 		in.pending = append(in.pending, pendingPath{pp, in.model})
 	}
-	in.trace = append(in.trace, decisionRec{0, nil})
+	in.trace = append(in.trace, decisionRec{pfx{}, nil})
 	return 0
+}
+
+func (in *Interp) tracePrefix(n int) []pfx {
+	pp := make([]pfx, n)
+	for i, d := range in.trace {
+		if i >= n {
+			break
+		}
+		pp[i] = d.p
+		pp[i].ex = false
+		pp[i].excl = nil
+	}
+	return pp
+}
+
+// Concretize forks over the feasible values of t (one solver query per
+// value) and returns the value of the current path.
+func (in *Interp) Concretize(t *Term) uint64 {
+	if t.IsConst() {
+		return t.k
+	}
+	w := int(t.w)
+	pos := len(in.trace)
+	var excl []uint64
+	var val uint64
+	haveVal := false
+	if pos < len(in.prefix) {
+		e := in.prefix[pos]
+		val = uint64(e.v)
+		haveVal = true
+		if !e.ex {
+			lit := in.tt.Eq(t, in.tt.BV(w, val))
+			in.trace = append(in.trace, decisionRec{pfx{v: e.v}, lit})
+			in.addPC(lit)
+			return val
+		}
+		excl = e.excl
+	}
+	in.stats.Forks++
+	if !haveVal {
+		m := in.currentModel()
+		if m == nil {
+			panic(pathEnd{endUnsupported, "concretisation without a model"})
+		}
+		val = in.tt.Eval(t, m, map[int]uint64{})
+	}
+	// look ahead: is there another feasible value?
+	excl2 := append(append([]uint64{}, excl...), val)
+	if len(excl2) > 300 {
+		panic(pathEnd{endUnsupported, "concretisation with more than 300 feasible values"})
+	}
+	cond := in.tt.True
+	for _, x := range excl2 {
+		cond = in.tt.And(cond, in.tt.Not(in.tt.Eq(t, in.tt.BV(w, x))))
+	}
+	in.syncSolver()
+	in.solver.SetTimeout(in.feasTimeoutMs)
+	r, m2 := in.solver.CheckWithModel(cond)
+	in.stats.FeasQ++
+	if r == Unknown {
+		in.stats.FeasUnknown++
+		in.inconclusive("solver unknown while enumerating values")
+	}
+	if r == Sat {
+		next := in.tt.Eval(t, m2, map[int]uint64{})
+		pp := in.tracePrefix(pos + 1)
+		pp[pos] = pfx{v: int64(next), ex: true, excl: excl2}
+		in.pending = append(in.pending, pendingPath{pp, m2})
+	}
+	lit := in.tt.Eq(t, in.tt.BV(w, val))
+	in.trace = append(in.trace, decisionRec{pfx{v: int64(val)}, lit})
+	in.addPC(lit)
+	if in.model != nil && in.tt.Eval(t, in.model, map[int]uint64{}) != val {
+		in.model = nil
+	}
+	return val
 }
 
 // Assume constrains the path.
@@ -426,6 +507,7 @@ func (in *Interp) renderConc(v Val, m Model, memo map[int]uint64) string {
 // Explore runs entry on all feasible paths.
 func (in *Interp) Explore(run func()) {
 	in.pending = []pendingPath{{nil, Model{}}}
+	progress := os.Getenv("GOSYMX_PROGRESS") != ""
 	for len(in.pending) > 0 {
 		if in.maxPaths > 0 && in.stats.Paths >= in.maxPaths {
 			in.stats.PathCapHit = true
@@ -437,6 +519,12 @@ func (in *Interp) Explore(run func()) {
 		in.resetPath(p)
 		in.runPath(run)
 		in.stats.Steps += in.steps
+		if progress {
+			fmt.Fprintf(os.Stderr, "path %d steps=%d forks=%d pending=%d infeasible=%d trace=%d pc=%d terms=%d\n", in.stats.Paths, in.steps, in.stats.Forks, len(in.pending), in.stats.Infeasible, len(in.trace), len(in.pc), in.tt.nextID)
+			if len(in.trace) > 0 && in.trace[len(in.trace)-1].lit != nil {
+				fmt.Fprintf(os.Stderr, "   last: %s\n", in.trace[len(in.trace)-1].lit)
+			}
+		}
 	}
 }
 
